@@ -2,6 +2,7 @@ import WorkflowModel.Model.Routing
 import WorkflowModel.Model.RunState
 import WorkflowModel.Model.Graph
 import WorkflowModel.Model.Engine
+import WorkflowModel.Model.HistCheck
 import WorkflowModel.Model.Adapters.RefStore
 import WorkflowModel.Model.Adapters.RefStream
 import WorkflowModel.Model.Adapters.RefTimeouts
@@ -369,6 +370,9 @@ partial def loop (h : IO.FS.Stream) (out : IO.FS.Stream) (cfg : WorkflowModel.En
     match EngDrv.parseCfg rest with
     | some c => out.putStrLn "ok"; out.flush; loop h out c {} rs
     | none => out.putStrLn "bad-op"; out.flush; loop h out cfg sys rs
+  | ["hist"] =>
+    -- the executable mirror of the history invariant (Props/History.lean) on the model's current state
+    out.putStrLn (if WorkflowModel.Engine.histOK cfg sys then "legal" else "illegal"); out.flush; loop h out cfg sys rs
   | "act" :: rest =>
     match EngDrv.parseAct rest with
     | some a =>
